@@ -184,6 +184,7 @@ def _check(prop, tier, seed, repo, vacuity=True, update_baseline=False):
         unit = r["unit"]
         basefile = os.path.join(ROOT, "units", unit, "baseline.json")
         only = cfg.get("functions", {}).get(unit)
+        excl = set(cfg.get("exclude_functions", {}).get(unit, []))
         if update_baseline:
             json.dump({"passing": sorted(n for n, f in r["funcs"].items() if f["success"])}, open(basefile, "w"), indent=1)
         baseline = set(_load_json(basefile, {"passing": []})["passing"])
@@ -193,6 +194,8 @@ def _check(prop, tier, seed, repo, vacuity=True, update_baseline=False):
         for name, f in sorted(r["funcs"].items()):
             short = name.split("::")[-1]
             if only is not None and name not in only and short not in only:
+                continue
+            if name in excl:
                 continue
             errs = failed_fns.get(short, []) + (failed_fns.get(name, []) if name != short else [])
             if f["success"]:
@@ -223,7 +226,7 @@ def _check(prop, tier, seed, repo, vacuity=True, update_baseline=False):
                     undecided.append("unit %s: obligation %s fails but was never recorded as passing (not an alarm): %s" % (unit, name, unlisted[0]["message"]))
         # a baseline obligation that vanished = lost anchor
         for b in baseline:
-            if b not in r["funcs"] and (only is None or b in only):
+            if b not in r["funcs"] and (only is None or b in only) and b not in excl:
                 undecided.append("unit %s: baseline obligation %s no longer generated" % (unit, b))
         if r["vacuity"] and r["vacuity"]["unreached_or_vacuous"]:
             allowed = set(cfg.get("vacuity_unreachable_ok", []))
